@@ -16,7 +16,7 @@
 //!   mismatched-default pinned only: `p: string = 1`
 //!   recursion          self / body / mutual 2, 3 / through an include / in a loop / in a set, counted
 //!                      down from d, started from a template, an include, a block, a component, the API
-//!   priority           X defined in every subset of six templates x four fallback-prefix lists,
+//!   priority           X defined in every subset of seven templates x four fallback-prefix lists,
 //!                      registered at once and one by one in every order
 
 mod comp;
@@ -529,7 +529,9 @@ fn run_recursion_item(kind: RecKind, start: RecStart, d: u64, acc: &mut Acc) {
 // ------------------------------------------------------------------------------------------------
 // fallback-prefix priority
 
-const PRIO_UNIVERSE: [&str; 6] = ["c.html", "other.html", "p1/c.html", "p1/d.html", "p2/c.html", "z.html"];
+// `p1z.html` is unprefixed and sorts between the two prefixes, so that with three priority levels
+// every order of (best, middle, worst) in the name-sorted walk occurs (seeded change C05-1)
+const PRIO_UNIVERSE: [&str; 7] = ["c.html", "other.html", "p1/c.html", "p1/d.html", "p1z.html", "p2/c.html", "z.html"];
 const PRIO_PREFIX_LISTS: [&[&str]; 4] = [&[], &["p1/"], &["p1/", "p2/"], &["p2/", "p1/"]];
 const PRIO_CALLERS: [&str; 3] = ["main.html", "p1/m.html", "p2/m.html"];
 
@@ -1505,7 +1507,7 @@ fn main() {
         Family::new(
             "priority",
             n_prio,
-            "X defined in every subset of 6 templates (2 under p1/, 1 under p2/, 3 unprefixed) x 4 fallback-prefix lists; registered in one call and one by one in every order; called from 3 templates, from each defining template, through render_component, render_str, get_component_definition",
+            "X defined in every subset of 7 templates (2 under p1/, 1 under p2/, 4 unprefixed: sorting before, between and after the prefixes) x 4 fallback-prefix lists; registered in one call and one by one in every order; called from 3 templates, from each defining template, through render_component, render_str, get_component_definition",
         ),
         |item, acc: &mut Acc| {
             let mask = item / PRIO_PREFIX_LISTS.len() as u64;
